@@ -104,7 +104,7 @@ _SPLIT_OPTS = ['', 'IMP:N=1', '*TRCL=(0 0 0 30 60 90 120 30 90 90 90 0)', 'U=2 *
 _SPLIT_GEOMS = ['-1 2', '(1:2) -3', '#(1 2)', '-1.1 2', '#5 (3:-4)', '(1:2)']
 
 
-@contract(cellcard.split, props=['C15'], name='cellcard.split', status='B')
+@contract(cellcard.split, props=['C15', 'C11'], name='cellcard.split', status='B')
 class _Split:
     """The MIP card splitter hands over name, material, geometry and the option text unchanged: nothing is dropped or
     added, in particular not the star of a starred keyword that comes first (LIKE n BUT *TRCL=..) and not a keyword."""
